@@ -432,6 +432,13 @@ def judge_lmds(run, cases):
             ctx.stat("gram:mds-reference-nonfinite(skipped)")
             continue
         if g.startswith("bad") or g.startswith("nonfinite"):
+            # a selected eigenvalue of the reference MDS problem that vanishes makes the MDS embedding itself a matter of
+            # rounding noise (sqrt of -1e-17 = NaN, of +1e-17 = 3e-9): not a landmark question (C05 covers plain MDS)
+            rc, cls, _ = ctx.run_model("model_c11", ["negdom neg=%s lamd=%s norm=%s" % (
+                fields(fo)["neg"], fields(fo)["lamd"], fields(fo)["norm"])])
+            if cls and fields(cls[0]).get("rankdef") == "1":
+                ctx.stat("gram:selected-eigenvalue-vanishes(skipped)")
+                continue
             lam_nonpos = any(x.startswith("-") or x == "0" or x == "nan" for x in c.o.get("lam", "").split(","))
             if kind == "sub":
                 ctx.fail("lmds:landmark-rows" + (":nonpositive-eigenvalue" if lam_nonpos else ""),
@@ -625,16 +632,22 @@ def lisomap_cases(r, quick):
         k = r.range(3, n - 1)
         cases.append(LisoCase(n, d, "%d/%d" % (nl, n), k, dist=dist, seed=r.below(2 ** 31), exact=True,
                               eig=("dense" if r.chance(3, 4) else "randomized"), label="exact-L1"))
-    # Euclidean, approx mode, including ratio = 1 (compared with Isomap)
-    for _ in range(40 if quick else 500):
+    # Euclidean / L1 metrics, approx mode, including ratio = 1 (compared with Isomap)
+    for _ in range(60 if quick else 700):
         n = r.range(6, 14 if quick else 24)
         D = r.range(1, 3)
         pts = int_points(r, n, D, D, 3)
         d = r.range(1, 3)
         one = r.chance(1, 2)
         nl = n if one else r.range(max(3, d + 1), n)
-        k = r.range(3, n - 1) if not r.chance(1, 4) else n - 1
-        cases.append(LisoCase(n, d, ratio_for(nl, n), k, pts=pts, seed=r.below(2 ** 31), label="ratio-one" if one else "euclid"))
+        full = r.chance(1, 2)                       # complete neighbourhood graph: geodesic = the metric itself (symmetric)
+        k = n - 1 if full else r.range(3, n - 1)
+        label = ("ratio-one" if one else "sub") + ("-complete" if full else "-knn")
+        if r.chance(1, 3):
+            dist = [[l1(p, q) for q in pts] for p in pts]      # a metric that is not Euclidean: indefinite centred matrix
+            cases.append(LisoCase(n, d, ratio_for(nl, n), k, dist=dist, seed=r.below(2 ** 31), label=label + "-L1"))
+        else:
+            cases.append(LisoCase(n, d, ratio_for(nl, n), k, pts=pts, seed=r.below(2 ** 31), label=label + "-euclid"))
     for _ in range(3 if quick else 12):
         n = r.range(7, 12)
         nl = 3
